@@ -17,6 +17,9 @@ REPLAYS = os.path.join(EVID, 'replays')
 def _write_cex(prop, obligation, harness, hexbytes, how, assertion, verifier_output=None, extra=None):
     os.makedirs(REPLAYS, exist_ok=True)
     safe = obligation.replace('/', '_').replace(':', '_').replace('@', '_').replace('#', '-').replace('[', '_').replace(']', '_')
+    if len(safe) > 100:
+        import hashlib as _h
+        safe = safe[:88] + '-' + _h.sha1(obligation.encode()).hexdigest()[:8]
     path = os.path.join(REPLAYS, '%s-%s.json' % (prop, safe))
     from contracts import registry as REG
     doc = {
